@@ -367,3 +367,77 @@ def ret_aggregates(fn):
             if s["k"] == "assign" and s["lhs"]["l"] == 0 and not s["lhs"]["p"]:
                 out.append((bi, si, s["rv"]))
     return out
+
+
+def bool_param(fn):
+    """Index of the unique `bool` parameter of a body (role-based: never rely on its name)."""
+    ls = [l for l in range(1, fn.arg_count + 1) if fn.b["locals"][l]["ty"] == "bool"]
+    if len(ls) != 1:
+        raise Inconclusive("%s: expected exactly one bool parameter, found %d" % (fn.path, len(ls)))
+    return ls[0]
+
+
+def is_arg(e, idx):
+    return isinstance(e, tuple) and e and e[0] == "arg" and e[1] == idx
+
+
+def canon(e):
+    """Canonical form of an expression tree for structural comparison: call-site identities, casts,
+    references and types erased; operands of commutative operators sorted."""
+    if not isinstance(e, tuple) or not e:
+        return e
+    k = e[0]
+    if k in ("ref", "deref"):
+        return canon(e[1])
+    if k == "cast":
+        return canon(e[2])
+    if k == "call":
+        name = e[1] if isinstance(e[1], str) else "indirect"
+        short = name.rsplit("::", 1)[-1]
+        args = tuple(canon(a) for a in e[2])
+        if short in ("max", "min"):
+            args = tuple(sorted(args, key=repr))
+        return ("call", short, args)
+    if k == "arg":
+        return ("arg", e[1])
+    if k == "const":
+        return ("const", e[1])
+    if k == "field":
+        return ("field", canon(e[1]), e[2])
+    if k in ("bin", "checked"):
+        a, b = canon(e[2]), canon(e[3])
+        if e[1] in ("Add", "Mul", "BitAnd", "BitOr", "Eq", "Ne"):
+            a, b = sorted((a, b), key=repr)
+        return ("bin", e[1], a, b)
+    if k == "agg":
+        return ("agg", e[1], tuple(sorted((n, canon(v)) for n, v in e[2].items())))
+    if k == "tuple":
+        return ("tuple", tuple(canon(x) for x in e[1]))
+    if k == "un":
+        return ("un", e[1], canon(e[2]))
+    if k == "local":
+        return ("local", e[1])
+    return (k,) + tuple(canon(x) if isinstance(x, tuple) else x for x in e[1:])
+
+
+def cond_truth(chosen, allv):
+    """Truth value of a bool switch edge."""
+    if chosen is None:
+        return True if allv == [0] else (False if allv == [1] else None)
+    return bool(chosen)
+
+
+def relation(cond):
+    """For a path condition on a comparison: (a, b, set of orderings of a vs b in {'lt','eq','gt'}) or None."""
+    e, chosen, allv = cond
+    t = cond_truth(chosen, allv)
+    if t is None or e[0] != "bin" or e[1] not in ("Gt", "Ge", "Lt", "Le", "Eq", "Ne"):
+        return None
+    sets = {"Gt": {"gt"}, "Ge": {"gt", "eq"}, "Lt": {"lt"}, "Le": {"lt", "eq"}, "Eq": {"eq"}, "Ne": {"lt", "gt"}}[e[1]]
+    if not t:
+        sets = {"lt", "eq", "gt"} - sets
+    return canon(e[2]), canon(e[3]), sets
+
+
+def flip(rel):
+    return {"lt": "gt", "gt": "lt", "eq": "eq"}[rel]
